@@ -770,6 +770,25 @@ func drawSetterOp(t *rapid.T, p Prof) setterOp {
 			break
 		}
 		n := rapid.SampledFrom([]int{0, 1, 1, 2, 3, 4}).Draw(t, "sw.n")
+		if rapid.IntRange(0, 14).Draw(t, "sw.long") == 0 {
+			// a long list (around 64, 128, 256 entries): one drawn component
+			// replicated with a varying byte; the malformed one, if any, sits
+			// at the very end, right after a power of two, or anywhere
+			n = rapid.SampledFrom([]int{63, 64, 65, 66, 100, 129, 257}).Draw(t, "sw.n.long")
+			proto := drawComp(t, true, "sw")
+			for i := 0; i < n; i++ {
+				c := proto.Clone()
+				v := append([]byte{}, (*c.Value)...)
+				v[0], v[1] = byte(i), byte(i>>8)
+				c.Value = &v
+				o.Comps = append(o.Comps, c)
+			}
+			if !valid {
+				i := rapid.SampledFrom([]int{n - 1, n - 1, 64 % n, 65 % n, 128 % n, n / 2, 0}).Draw(t, "sw.badidx.long")
+				o.Comps[i] = drawComp(t, false, "sw.bad")
+			}
+			return o
+		}
 		for i := 0; i < n; i++ {
 			o.Comps = append(o.Comps, drawComp(t, true, "sw"))
 		}
